@@ -227,8 +227,19 @@ func (s *session) commit(r *sessionRecord, trivial bool) (err error) {
 		// manifest journal writer not yet created, create one
 		err = s.newManifest(r, nv)
 	} else if s.manifest.Size() >= s.o.GetMaxManifestFileSize() {
-		// pass nil sessionRecord to avoid over-reference table file
-		err = s.newManifest(nil, nv)
+		// Pass a sessionRecord without tables to avoid over-reference table file,
+		// but keep the journal and sequence numbers carried by this commit.
+		nr := &sessionRecord{}
+		if r.has(recJournalNum) {
+			nr.setJournalNum(r.journalNum)
+		}
+		if r.has(recPrevJournalNum) {
+			nr.setPrevJournalNum(r.prevJournalNum)
+		}
+		if r.has(recSeqNum) {
+			nr.setSeqNum(r.seqNum)
+		}
+		err = s.newManifest(nr, nv)
 	} else {
 		err = s.flushManifest(r)
 	}
